@@ -8,14 +8,20 @@ From Coq Require Import ZifyBool ZifyN ZifyNat.
 Local Open Scope N_scope.
 
 (* ---- two configurations -------------------------------------------------------------------------------------- *)
-Lemma disconnect_irrel L L' s c byb : disconnect L s c byb = disconnect L' s c byb.
+Definition same_result (r1 r2 : state * list lout) : Prop := uncached (fst r1) = uncached (fst r2) /\ snd r1 = snd r2.
+
+Lemma same_result_refl r : same_result r r.
+Proof. split; reflexivity. Qed.
+
+Lemma disconnect_irrel L L' s c byb : same_result (disconnect L s c byb) (disconnect L' s c byb).
 Proof.
-  unfold disconnect. destruct (find_conn (s_conns s) c) as [cn|]; [|reflexivity]. destruct (find_cd (s_cdata s) c) as [d|]; [|reflexivity].
+  unfold disconnect. destruct (find_conn (s_conns s) c) as [cn|]; [|apply same_result_refl]. destruct (find_cd (s_cdata s) c) as [d|]; [|apply same_result_refl].
   destruct (step_limit_irrel_other (s_conns s) (s_services s) (s_next s) (max_names_per_connection L) (max_names_per_connection L') (EvDisconnect c)) as [Hc Ho];
     [discriminate|].
   unfold reg. destruct (step (mkBus (s_conns s) (s_services s) (s_next s) (max_names_per_connection L)) (EvDisconnect c)) as [b1 o1].
   destruct (step (mkBus (s_conns s) (s_services s) (s_next s) (max_names_per_connection L')) (EvDisconnect c)) as [b2 o2].
-  simpl in Hc, Ho. unfold core in Hc. inversion Hc. subst o2. rewrite H0, H1, H2. reflexivity.
+  simpl in Hc, Ho. unfold core in Hc. inversion Hc. subst o2. rewrite H0, H1, H2.
+  destruct (existsb is_fault o1); [apply same_result_refl|]. destruct (drop_pending (s_pending s) c) as [pl po]. split; reflexivity.
 Qed.
 
 Lemma via_registry_not_refused L s c e :
@@ -39,56 +45,60 @@ Qed.
 
 Theorem limits_act_only_by_refusing_proved : limits_act_only_by_refusing.
 Proof.
-  intros L L' s e R1 R2 O1 O2. destruct e.
-  - cbn [lstep] in *. destruct (max_incomplete_connections L <=? s_nincomplete s); [discriminate R1|].
-    destruct (max_incomplete_connections L' <=? s_nincomplete s); [discriminate R2|]. reflexivity.
-  - reflexivity.
+  intros L L' s e R1 R2 A1 A2. change (same_result (lstep L s e) (lstep L' s e)). destruct e.
+  - cbn [lstep] in *. destruct (negb (s_watches s)); [apply same_result_refl|].
+    destruct (max_incomplete_connections L <? s_nincomplete s + 1); [discriminate A1|].
+    destruct (max_incomplete_connections L' <? s_nincomplete s + 1); [discriminate A2|].
+    cbn [step reg b_conns b_services b_next b_limit]. split; [|reflexivity]. unfold uncached. cbn [fst s_conns s_services s_next s_cdata s_rules s_pending s_ncomplete s_nincomplete s_byuser].
+    rewrite !map_app. reflexivity.
+  - apply same_result_refl.
   - rewrite hello_refusal in R1, R2. cbn [lstep].
-    destruct (find_conn (s_conns s) c) as [cn|]; [|reflexivity]. destruct (find_cd (s_cdata s) c) as [d|]; [|reflexivity].
-    destruct (d_auth d); cbn [negb]; [|reflexivity].
-    destruct (c_active cn); [reflexivity|]. simpl in R1, R2. apply orb_false_iff in R1, R2. destruct R1 as [A1 B1], R2 as [A2 B2].
-    rewrite A1, B1, A2, B2.
+    destruct (find_conn (s_conns s) c) as [cn|]; [|apply same_result_refl]. destruct (find_cd (s_cdata s) c) as [d|]; [|apply same_result_refl].
+    destruct (d_auth d); cbn [negb]; [|apply same_result_refl].
+    destruct (c_active cn); [apply same_result_refl|]. simpl in R1, R2. apply orb_false_iff in R1, R2. destruct R1 as [B1 C1], R2 as [B2 C2].
+    rewrite B1, C1, B2, C2.
     destruct (step_limit_irrel_other (s_conns s) (s_services s) (s_next s) (max_names_per_connection L) (max_names_per_connection L') (EvHello c)) as [Hc Ho];
       [discriminate|].
     unfold reg. destruct (step (mkBus (s_conns s) (s_services s) (s_next s) (max_names_per_connection L)) (EvHello c)) as [b1 o1].
     destruct (step (mkBus (s_conns s) (s_services s) (s_next s) (max_names_per_connection L')) (EvHello c)) as [b2 o2].
-    simpl in Hc, Ho. unfold core in Hc. inversion Hc. subst o2. rewrite H0, H1, H2. reflexivity.
+    simpl in Hc, Ho. unfold core in Hc. inversion Hc. subst o2. rewrite H0, H1, H2.
+    destruct (existsb is_fault o1); [apply same_result_refl | split; reflexivity].
   - cbn [lstep]. apply disconnect_irrel.
-  - cbn [lstep] in *. apply via_registry_irrel; assumption.
-  - cbn [lstep] in *. apply via_registry_irrel; assumption.
+  - cbn [lstep] in *. rewrite (via_registry_irrel L L'); [apply same_result_refl | assumption | assumption].
+  - cbn [lstep] in *. rewrite (via_registry_irrel L L'); [apply same_result_refl | assumption | assumption].
   - rewrite addmatch_refusal in R1, R2. cbn [lstep].
-    destruct (find_conn (s_conns s) c) as [cn|]; [|reflexivity]. destruct (find_cd (s_cdata s) c) as [d|]; [|reflexivity].
-    destruct (c_active cn); [|reflexivity]. simpl in R1, R2. simpl negb. cbv iota. rewrite R1, R2. reflexivity.
-  - reflexivity.
+    destruct (find_conn (s_conns s) c) as [cn|]; [|apply same_result_refl]. destruct (find_cd (s_cdata s) c) as [d|]; [|apply same_result_refl].
+    destruct (c_active cn); [|apply same_result_refl]. simpl in R1, R2. simpl negb. cbv iota. rewrite R1, R2. apply same_result_refl.
+  - apply same_result_refl.
   - cbn [lstep] in *.
-    destruct (find_conn (s_conns s) c) as [cn|]; [|reflexivity].
+    destruct (find_conn (s_conns s) c) as [cn|]; [|apply same_result_refl].
     destruct (negb (c_active cn)); [apply disconnect_irrel|].
-    destruct (negb (is_active s d)); [reflexivity|].
+    destruct (negb (is_active s d)); [apply same_result_refl|].
     set (pl := if rserial =? 0 then s_pending s else check_reply (s_pending s) d c rserial) in *.
-    destruct noreply; [reflexivity|].
-    destruct (expect_scan pl c d serial 0) as [count|]; [|reflexivity].
+    destruct noreply; [apply same_result_refl|].
+    destruct (expect_scan pl c d serial 0) as [count|]; [|apply same_result_refl].
     destruct (max_replies_per_connection L <=? count); [discriminate R1|].
-    destruct (max_replies_per_connection L' <=? count); [discriminate R2|]. reflexivity.
-  - cbn [lstep]. destruct (find_conn (s_conns s) d) as [dn|]; [|reflexivity].
-    destruct (negb (c_active dn)); [apply disconnect_irrel | reflexivity].
-  - reflexivity.
-  - cbn [lstep]. destruct (find_conn (s_conns s) c) as [cn|]; [|reflexivity].
-    destruct (negb (c_active cn)); [apply disconnect_irrel | reflexivity].
-  - cbn [lstep oversize] in *. destruct (find_conn (s_conns s) c) as [cn|]; [|reflexivity]. rewrite O1, O2. reflexivity.
+    destruct (max_replies_per_connection L' <=? count); [discriminate R2|]. apply same_result_refl.
+  - cbn [lstep]. destruct (find_conn (s_conns s) d) as [dn|]; [|apply same_result_refl].
+    destruct (negb (c_active dn)); [apply disconnect_irrel | apply same_result_refl].
+  - apply same_result_refl.
+  - cbn [lstep]. destruct (find_conn (s_conns s) c) as [cn|]; [|apply same_result_refl].
+    destruct (negb (c_active cn)); [apply disconnect_irrel | apply same_result_refl].
+  - cbn [lstep]. destruct (find_conn (s_conns s) c) as [cn|]; [|apply same_result_refl]. destruct (find_cd (s_cdata s) c) as [d|]; [|apply same_result_refl].
+    destruct (too_long_at (d_maxmsg d) hdr); [apply disconnect_irrel | apply same_result_refl].
 Qed.
 
 (* ---- the size test ------------------------------------------------------------------------------------------------ *)
 Lemma align8_ge x : x <= (x + 7) / 8 * 8.
 Proof. pose proof (N.div_mod (x + 7) 8). pose proof (N.mod_lt (x + 7) 8). lia. Qed.
 
-Lemma too_long_spec L hdr :
-  too_long L hdr = match declared_size hdr with Some n => effective_max L <? n | None => true end.
+Lemma too_long_at_spec M hdr :
+  too_long_at M hdr = match declared_size hdr with Some n => M <? n | None => true end.
 Proof.
-  unfold too_long, Wire.Message.have_message, declared_size, loader_max, effective_max.
+  unfold too_long_at, Wire.Message.have_message, declared_size.
   unfold Wire.Message.u32_at. unfold Wire.Message.byte_at, Wire.Body.unpack32, Wire.Body.align_up.
-  change DBUS_MAXIMUM_MESSAGE_LENGTH with 134217728. change DBUS_LITTLE_ENDIAN with 108. change DBUS_BIG_ENDIAN with 66.
+  change DBUS_LITTLE_ENDIAN with 108. change DBUS_BIG_ENDIAN with 66.
   destruct ((nth 0 hdr 0 =? 108) || (nth 0 hdr 0 =? 66)); simpl negb; cbv iota; [|reflexivity].
-  set (M := N.min (max_message_size L) 134217728).
   cbn [Nat.add].
   set (b4 := nth 4 hdr 0). set (b5 := nth 5 hdr 0). set (b6 := nth 6 hdr 0). set (b7 := nth 7 hdr 0).
   set (b12 := nth 12 hdr 0). set (b13 := nth 13 hdr 0). set (b14 := nth 14 hdr 0). set (b15 := nth 15 hdr 0).
@@ -116,16 +126,15 @@ Proof.
     + symmetry. apply N.ltb_ge. apply N.ltb_ge in E3. lia.
 Qed.
 
+Lemma too_long_spec L hdr :
+  too_long L hdr = match declared_size hdr with Some n => effective_max L <? n | None => true end.
+Proof. unfold too_long. rewrite too_long_at_spec. reflexivity. Qed.
+
 (* ---- what a disconnection does ---------------------------------------------------------------------------------------- *)
 Lemma linv_no_fault L s c cn : linv L s -> find_conn (s_conns s) c = Some cn ->
   existsb is_fault (snd (step (reg L s) (EvDisconnect c))) = false.
 Proof.
-  intros I Hf. destruct (li_reg _ _ I) as [h Hh].
-  destruct (existsb is_fault (snd (step (reg L s) (EvDisconnect c)))) eqn:E; [|reflexivity]. exfalso.
-  apply existsb_exists in E. destruct E as [o [Ho Fo]]. rewrite Hh in Ho.
-  apply (no_fault_reachable (max_names_per_connection L) h (EvDisconnect c)) in Ho.
-  - unfold is_fault in Fo. destruct (snd o); try discriminate. apply Ho. reflexivity.
-  - intros c' Ec. inversion Ec; subst c'. rewrite <- Hh. simpl. rewrite Hf. discriminate.
+  intros I Hf. apply (inv_no_fault (reg L s) c cn (linv_inv L s I)). exact Hf.
 Qed.
 
 (* the facts about a disconnection that the theorems below use *)
@@ -147,12 +156,12 @@ Proof.
   destruct (p_get p =? c); [exact IH|]. destruct (p_send p =? c); simpl; [|exact IH]. intros [H|H]; [discriminate H | exact (IH H)].
 Qed.
 
-Lemma disconnect_effect L s c byb cn d : linv L s -> find_conn (s_conns s) c = Some cn -> find_cd (s_cdata s) c = Some d ->
+Lemma disconnect_effect_g B L s c byb cn d : ginv B s -> find_conn (s_conns s) c = Some cn -> find_cd (s_cdata s) c = Some d ->
   disconnected L s c cn d (fst (disconnect L s c byb)) (snd (disconnect L s c byb)) byb.
 Proof.
-  intros I Hf Hd. pose proof (linv_no_fault L s c cn I Hf) as Nf. unfold disconnect. rewrite Hf, Hd.
+  intros I Hf Hd. pose proof (inv_no_fault (reg L s) c cn (ginv_inv B L s I) Hf) as Nf. unfold disconnect. rewrite Hf, Hd.
   destruct (step (reg L s) (EvDisconnect c)) as [b' ro] eqn:Es. simpl in Nf. rewrite Nf.
-  destruct (step_disconnect _ _ _ _ 0 Es Nf) as [cn' [_ [S _]]].
+  destruct (step_disconnect _ _ _ _ (fun _ => 0) Es Nf) as [cn' [_ [S _]]].
   pose proof (drop_pending_not_closed (s_pending s) c) as Hp.
   destruct (drop_pending (s_pending s) c) as [pl po] eqn:Ep. simpl in Hp. cbn [fst snd].
   constructor; cbn [s_conns s_ncomplete s_nincomplete s_byuser s_pending]; try reflexivity.
@@ -166,7 +175,45 @@ Proof.
     + intros [-> ->]. left. reflexivity.
 Qed.
 
+Lemma disconnect_effect L s c byb cn d : linv L s -> find_conn (s_conns s) c = Some cn -> find_cd (s_cdata s) c = Some d ->
+  disconnected L s c cn d (fst (disconnect L s c byb)) (snd (disconnect L s c byb)) byb.
+Proof. intros [I _]. exact (disconnect_effect_g _ L s c byb cn d I). Qed.
+
+Lemma ginv_find_cd B s c x : ginv B s -> find_conn (s_conns s) c = Some x -> exists d, find_cd (s_cdata s) c = Some d.
+Proof.
+  intros I Hf. destruct (find_cd (s_cdata s) c) eqn:E; [eauto|]. exfalso. apply find_cd_none in E. rewrite (gi_ids _ _ I) in E.
+  apply E. apply find_conn_in in Hf. destruct Hf as [Hin <-]. unfold ids. apply in_map. exact Hin.
+Qed.
+
 (* ---- an oversize message removes its sender and nobody else --------------------------------------------------------- *)
+(* the test is against the maximum the connection's loader was given when it was accepted *)
+Theorem oversize_by_own_maximum B L s c d hdr n :
+  ginv B s -> connected s c = true -> find_cd (s_cdata s) c = Some d -> declared_size hdr = Some n -> d_maxmsg d < n ->
+  let s' := fst (lstep L s (Message c hdr)) in
+  let o := snd (lstep L s (Message c hdr)) in
+  connected s' c = false /\
+  (forall x, x <> c -> connected s' x = connected s x /\ registered s' x = registered s x) /\
+  (forall x, In (x, OClosed) o <-> x = c).
+Proof.
+  intros I Hc Hd Hn Hlt. cbn [lstep]. unfold connected in Hc. destruct (find_conn (s_conns s) c) as [cn|] eqn:Hf; [|discriminate].
+  rewrite Hd, too_long_at_spec, Hn. replace (d_maxmsg d <? n) with true by (symmetry; apply N.ltb_lt; exact Hlt). cbv zeta.
+  destruct (disconnect_effect_g B L s c true cn d I Hf Hd) as [S _ _ _ _ Hcl].
+  pose proof (ginv_nodup B s I) as Nd. rewrite ids_shapes in Nd.
+  split; [|split].
+  - rewrite connected_shapes, S, find_shape_del_same by exact Nd. reflexivity.
+  - intros x Hx. rewrite !connected_shapes, !registered_shapes, S, find_shape_del by exact Hx. split; reflexivity.
+  - intros x. rewrite Hcl. split; [tauto | auto].
+Qed.
+
+Theorem fitting_by_own_maximum L s c d hdr n :
+  connected s c = true -> find_cd (s_cdata s) c = Some d -> declared_size hdr = Some n -> n <= d_maxmsg d ->
+  lstep L s (Message c hdr) = (s, []).
+Proof.
+  intros Hc Hd Hn Hle. cbn [lstep]. unfold connected in Hc. destruct (find_conn (s_conns s) c); [|discriminate].
+  rewrite Hd, too_long_at_spec, Hn. replace (d_maxmsg d <? n) with false by (symmetry; apply N.ltb_ge; exact Hle). reflexivity.
+Qed.
+
+(* under one configuration every connection's maximum is the configured one *)
 Theorem oversize_only_sender L s c hdr n :
   linv L s -> connected s c = true -> declared_size hdr = Some n -> effective_max L < n ->
   let s' := fst (lstep L s (Message c hdr)) in
@@ -175,23 +222,20 @@ Theorem oversize_only_sender L s c hdr n :
   (forall d, d <> c -> connected s' d = connected s d /\ registered s' d = registered s d) /\
   (forall d, In (d, OClosed) o <-> d = c).
 Proof.
-  intros I Hc Hn Hlt. cbn [lstep]. unfold connected in Hc. destruct (find_conn (s_conns s) c) as [cn|] eqn:Hf; [|discriminate].
-  rewrite too_long_spec, Hn. replace (effective_max L <? n) with true by (symmetry; apply N.ltb_lt; exact Hlt). cbv zeta.
+  intros I Hc Hn Hlt. pose proof Hc as Hc'. unfold connected in Hc'. destruct (find_conn (s_conns s) c) as [cn|] eqn:Hf; [|discriminate].
   destruct (linv_find_cd L s c cn I Hf) as [d Hd].
-  destruct (disconnect_effect L s c true cn d I Hf Hd) as [S _ _ _ _ Hcl].
-  pose proof (linv_nodup L s I) as Nd. rewrite ids_shapes in Nd.
-  split; [|split].
-  - rewrite connected_shapes, S, find_shape_del_same by exact Nd. reflexivity.
-  - intros x Hx. rewrite !connected_shapes, !registered_shapes, S, find_shape_del by exact Hx. split; reflexivity.
-  - intros x. rewrite Hcl. split; [tauto | auto].
+  apply (oversize_by_own_maximum _ L s c d hdr n (proj1 I) Hc Hd Hn).
+  rewrite (li_maxmsg _ _ I d (proj1 (find_cd_in _ _ _ Hd))). exact Hlt.
 Qed.
 
 Theorem fitting_message_harmless L s c hdr n :
-  declared_size hdr = Some n -> n <= effective_max L -> connected s c = true ->
+  linv L s -> declared_size hdr = Some n -> n <= effective_max L -> connected s c = true ->
   lstep L s (Message c hdr) = (s, []).
 Proof.
-  intros Hn Hle Hc. cbn [lstep]. unfold connected in Hc. destruct (find_conn (s_conns s) c); [|discriminate].
-  rewrite too_long_spec, Hn. replace (effective_max L <? n) with false by (symmetry; apply N.ltb_ge; exact Hle). reflexivity.
+  intros I Hn Hle Hc. pose proof Hc as Hc'. unfold connected in Hc'. destruct (find_conn (s_conns s) c) as [cn|] eqn:Hf; [|discriminate].
+  destruct (linv_find_cd L s c cn I Hf) as [d Hd].
+  apply (fitting_by_own_maximum L s c d hdr n Hc Hd Hn).
+  rewrite (li_maxmsg _ _ I d (proj1 (find_cd_in _ _ _ Hd))). exact Hle.
 Qed.
 
 (* ---- capacity that is freed can be used again ---------------------------------------------------------------------------- *)
